@@ -29,26 +29,27 @@ PYFILE = 'maltoolbox/language/languagegraph.py'
 # module -> [(class, function)]
 MODULES = {
     'Attacks': [('LanguageGraph', '_get_attacks_for_asset_type')],
+    'Vars': [('LanguageGraph', '_get_variable_for_asset_type_by_name')],
     'Assets': [('LanguageGraphAsset', 'is_subasset_of'), ('LanguageGraphAsset', 'get_all_subassets'),
                ('LanguageGraphAsset', 'get_all_superassets')],
     'Assocs': [('LanguageGraphAssociation', 'contains_fieldname'), ('LanguageGraphAssociation', 'contains_asset'),
                ('LanguageGraphAssociation', 'get_opposite_fieldname'), ('LanguageGraphAssociation', 'get_opposite_asset'),
                ('LanguageGraph', 'get_asset_by_name'), ('LanguageGraph', 'get_association_by_fields_and_assets')],
 }
-MODULE_ORDER = ['Attacks', 'Assets', 'Assocs']
-IMPORTS = {'Attacks': [], 'Assets': [], 'Assocs': ['Assets']}
+MODULE_ORDER = ['Attacks', 'Vars', 'Assets', 'Assocs']
+IMPORTS = {'Attacks': [], 'Vars': [], 'Assets': [], 'Assocs': ['Assets']}
 # which heap a module's functions live on: 'LS' (the language specification, mutable objects) or 'GH' (the
 # language-graph objects, read only)
-HEAP = {'Attacks': 'LS', 'Assets': 'GH', 'Assocs': 'GH'}
+HEAP = {'Attacks': 'LS', 'Vars': 'LS', 'Assets': 'GH', 'Assocs': 'GH'}
 
 TIE = {
     'gen_dir': 'MalVerif/Py/GenLang',
     'gen_modules': MODULE_ORDER,
     'order': 30,
-    'chain': ['MalVerif.Py.AbsLang', 'MalVerif.Py.TieLang', 'MalVerif.PropsGen.C03',
+    'chain': ['MalVerif.Py.AbsLang', 'MalVerif.Py.TieLang', 'MalVerif.Py.TieLangVars', 'MalVerif.PropsGen.C03',
               'MalVerif.Py.AbsLangGraph', 'MalVerif.Py.TieLangGraph', 'MalVerif.PropsGen.C15'],
     'needs': {
-        'C03': ['MalVerif.Py.TieLang', 'MalVerif.PropsGen.C03'],
+        'C03': ['MalVerif.Py.TieLang', 'MalVerif.Py.TieLangVars', 'MalVerif.PropsGen.C03'],
         'C15': ['MalVerif.Py.TieLangGraph', 'MalVerif.PropsGen.C15'],
     },
     'sources': {
@@ -67,6 +68,7 @@ PREFIX = {'lgraph': 'lg_', 'gasset': 'lgasset_', 'gassoc': 'lgassoc_'}
 # signatures the source annotates too vaguely: (class type, name) -> ([parameter types], result type)
 SIGS = {
     ('lgraph', '_get_attacks_for_asset_type'): (['str'], ('dict', 'str', 'stepref')),
+    ('lgraph', '_get_variable_for_asset_type_by_name'): (['str', 'str'], 'varobj'),
     ('gasset', 'is_subasset_of'): (['gasset'], 'bool'),
     ('gasset', 'get_all_subassets'): ([], ('list', 'gasset')),
     ('gasset', 'get_all_superassets'): ([], ('list', 'gasset')),
@@ -78,7 +80,7 @@ SIGS = {
     ('lgraph', 'get_association_by_fields_and_assets'): (['str', 'str', 'str', 'str'], ('opt', 'gassoc')),
 }
 # what the source's annotation must look like for a table type (a changed annotation is not silently accepted)
-ANN_OK = {'str': {'str'}, 'bool': {'bool'}, 'gasset': {'LanguageGraphAsset', 'Any'},
+ANN_OK = {'str': {'str'}, 'bool': {'bool'}, 'varobj': {'dict'}, 'gasset': {'LanguageGraphAsset', 'Any'},
           ('dict', 'str', 'stepref'): {'dict'}, ('list', 'gasset'): {'list[LanguageGraphAsset]'},
           ('opt', 'gasset'): {'Optional[LanguageGraphAsset]'}, ('opt', 'gassoc'): {'Optional[LanguageGraphAssociation]'}}
 # d['key'] on the dictionaries of the language specification: type -> key -> (lean reader, result type)
@@ -106,7 +108,9 @@ ATTRS = {
 }
 LEAN_TYPE = {'str': 'String', 'bool': 'Bool', 'int': 'Int', 'stepref': 'SRef', 'reachref': 'RRef', 'listref': 'LRef',
              'assetd': 'PyAssetD', 'vard': 'PyVarD', 'assocd': 'PyAssocD', 'expr': 'PyExpr', 'gasset': 'GARef',
-             'gassoc': 'GCRef', 'gfield': 'PyLGField'}
+             'gassoc': 'GCRef', 'gfield': 'PyLGField', 'varobj': 'PyVarObj'}
+# a local assigned both an Optional variable dictionary and a step-expression dictionary has the sum type 'varobj'
+VAROBJ = {('opt', 'vard'): '(PyVarObj.ofOptVar {x})', 'expr': '(PyVarObj.expr {x})', 'varobj': '{x}'}
 EXC = {'LanguageGraphAssociationError': 'PyErr.other', 'LanguageGraphException': 'PyErr.languageGraphException',
        'LookupError': 'PyErr.lookupError', 'KeyError': 'PyErr.keyError', 'ValueError': 'PyErr.valueError'}
 LEAN_KEYWORDS = {'end', 'at', 'from', 'have', 'show', 'fun', 'then', 'else', 'do', 'in', 'let', 'match', 'with', 'if',
@@ -249,6 +253,7 @@ class Tr:
         if isinstance(t, tuple) and t[0] == 'opt' and t[1] in ('assetd', 'vard', 'assocd', 'reachref', 'gasset', 'gassoc'):
             return f'({x}).isSome'          # these dictionaries / objects are never empty / define no __bool__
         if t == ('opt', 'str'): return f'(pyTruthyStr {x}).isSome'
+        if t == 'varobj': return f'({x}).truthy'
         raise Unsupported(f'truthiness of type {t}')
 
     # ---- expressions: (lean text, type); may emit `let` lines for allocations in front of the current statement
@@ -286,6 +291,8 @@ class Tr:
                 k, kt = self.expr(e.slice)
                 if kt != t[1]: raise Unsupported(f'dict key type {kt}')
                 return f'(← pyGetItem {x} {k})', t[2]
+            if t == 'varobj' and is_const(e.slice, 'stepExpression'):
+                return f'(← pyVarObjGet {x} "stepExpression")', 'varobj'
             raise Unsupported(f'subscript on {t}')
         if isinstance(e, ast.UnaryOp) and isinstance(e.op, ast.Not):
             x, t = self.expr(e.operand)
@@ -429,7 +436,11 @@ class Tr:
 
     # ---- local variables
     def declare(self, name, t, value):
+        if self.var_types.get(name) == 'varobj' and t in VAROBJ:
+            value, t = VAROBJ[t].format(x=value), 'varobj'
         if name in self.locals:
+            if self.dry and self.locals[name] != t and self.locals[name] in VAROBJ and t in VAROBJ:
+                self.var_types[name] = 'varobj'; self.locals[name] = t = 'varobj'      # learnt in the dry run
             if self.locals[name] != t:
                 if unknown(self.locals[name]) and not unknown(t): self.locals[name] = t
                 elif isinstance(self.locals[name], tuple) and self.locals[name][0] == 'opt' and self.locals[name][1] == t:
@@ -468,6 +479,7 @@ class Tr:
 
     def coerce(self, x, t, want):
         if t == want: return x
+        if want == 'varobj' and t in VAROBJ: return VAROBJ[t].format(x=x)
         if isinstance(want, tuple) and want[0] == 'opt':
             if t == want[1]: return f'(some {x})'
             if t == ('opt', '?'): return 'none'
